@@ -134,6 +134,7 @@ FAMILIES["stream"] = {
                    65: "RemoveLabelHeaderFromStream differs from the Label model",
                    345: "C16: with several labelled streams open at once (every header removed before the rest is read), a stream did not give back its own label and payload",
                    318: "C09: a compressed state exchange that inflates beyond the decompression cap changed the receiving side (merged / handed to a delegate)",
+                   341: "C13: while refusing a compressed stream that inflates far beyond the decompression cap the receiver allocated more than six times the cap (the data was inflated and buffered before the cap was applied)",
                    340: "C13: a compressed stream inflating beyond the decompression cap was processed instead of being refused at the cap",
                    310: "C09: Join reported success but joiner and host do not list each other (and the host's members)",
                    311: "C09: host-side veto / incompatibility: Join succeeded one-sidedly (host replied before verifying and merging)",
